@@ -3,6 +3,8 @@ import Driver.C14Util
 import AslModel.Model.Isa.I4004
 import AslModel.Model.Isa.I8080
 import Driver.C14_Pic
+import Driver.C14_6502
+import Driver.C14_Msp430
 /-! Driver mode `c14`: one instruction statement per request line.
 
 request : `<target> <cpu> <pc> <MNEMONIC> <arg>* | <real>`   args = evaluated operand values (decimal, may be negative),
@@ -57,7 +59,9 @@ which must not import this file; shared helpers are in `Driver/C14Util.lean`). -
 def targets : List (String × (Nat → Nat → String → List Int → String → String) × (Unit → String)) := [
   ("4004", h4004, forms4004),
   ("8080", fun c _ mn as real => h8080 c mn as real, forms8080),
-  ("pic16c8x", hPic, formsPic)
+  ("pic16c8x", hPic, formsPic),
+  ("msp430", hMsp430, formsMsp430),
+  ("6502", h6502, forms6502)
 ]
 
 /-- mode `c14forms`: the SPEC's mnemonic list with operand form and minimum CPU, for the generator -/
